@@ -325,6 +325,21 @@ def explore(ck, n, em, np, xrun=True):
             pm0, l0 = float(perm[(0,) + (0,) * len(extra)]), float(lam[0])
             calls.append(("perwavelength2perfrequency", (pm0, l0), (float(back[(-1,) + (0,) * len(extra)]), float(fb[-1]))))
             calls.append(("perwavenumber2perfrequency", (float(pwn[(0,) + (0,) * len(extra)]), float(wn[0])), (float(b2[(0,) + (0,) * len(extra)]), float(f2[0]))))
+    # ---------------- snell / fresnel: exact boundaries.  Identical media transmit at every angle incl. grazing
+    # incidence (n1 sin(theta1) / n2 == 1 exactly at 90 deg: no total reflection, theta2 = theta1, R = 0 resp. 0/0-free);
+    # the critical angle itself (n1 sin(theta1) == n2 up to rounding) may go either way and is not judged.
+    for nn in (1.0, 1.33, rng.uniform(0.5, 4.0)):
+        for th in (0.0, 30.0, 89.0, 90.0, rng.uniform(0, 90)):
+            ck.case(key=("snell-same", nn, th), kind="snell/identical-media")
+            cse = {"fn": "snell/identical-media", "args": [nn, nn, th]}
+            with np.errstate(all="ignore"):
+                t2 = float(em.snell(nn, nn, th))
+                ta = np.asarray(em.snell(nn, nn, np.array([th, th])))
+                Rv, Rh = em.fresnel(nn, nn, th)
+            if not (abs(t2 - th) <= 1e-6 * max(th, 1.0)) or not np.all(np.abs(ta - th) <= 1e-6 * max(th, 1.0)):
+                ck.violation("other", f"snell({nn!r},{nn!r},{th!r}) = {t2!r} (array call {ta.tolist()!r}): identical media must transmit unchanged", cse)
+            if th < 90.0 and not (abs(float(Rv)) <= 1e-7 and abs(float(Rh)) <= 1e-7):
+                ck.violation("other", f"fresnel({nn!r},{nn!r},{th!r}) = ({Rv!r},{Rh!r}), identical media reflect nothing", cse)
     # ---------------- snell / fresnel
     for _ in range(max(n // 2, 20)):
         n1 = numlib.loguniform(rng, 0.5, 4.0)
